@@ -560,3 +560,62 @@ End EvoPacked.
 Lemma ref_evo_contract d lo hi proposal : (forall k, (k < d)%nat -> at_ lo k <= at_ hi k) ->
   evo_contract ref_state (ref_ask d lo hi proposal) ref_tell snd fst d lo hi.
 Proof. intros H. exact (ref_contract d lo hi proposal H). Qed.
+
+(* ------------------------------------------------------------------ NaN candidates and the elite set, counted *)
+(* the candidates whose cleaned loss is below +inf (finite or -inf; never NaN) *)
+Definition below_inf (cl : list ext) : list nat := filter (fun k => ltb (nth k cl PInf) PInf) (seq 0 (length cl)).
+
+(* when at least ne candidates have a loss below +inf, every elite has one: no NaN (or +inf) candidate is an elite *)
+Theorem enough_finite_no_nan_elite ne cl j : (ne <= length (below_inf cl))%nat -> In j (elites ne cl) ->
+  ltb (nth j cl PInf) PInf = true.
+Proof.
+  intros Hcnt Hj. destruct (ltb (nth j cl PInf) PInf) eqn:E; [reflexivity|exfalso].
+  assert (Hinf : nth j cl PInf = PInf) by (destruct (nth j cl PInf); simpl in E; try discriminate; reflexivity).
+  assert (Hincl : incl (j :: below_inf cl) (elites ne cl)).
+  { intros k [<-|Hk]; [exact Hj|]. unfold below_inf in Hk. apply filter_In in Hk. destruct Hk as [Hr Hlt].
+    apply in_seq in Hr. eapply elites_downward; [exact Hj | lia | now rewrite Hinf]. }
+  assert (Hnd : NoDup (j :: below_inf cl)).
+  { constructor; [|apply NoDup_filter, seq_NoDup]. unfold below_inf. intros Hk. apply filter_In in Hk. destruct Hk as [_ Hlt].
+    rewrite E in Hlt. discriminate. }
+  pose proof (NoDup_incl_length Hnd Hincl) as Hlen. rewrite elites_length in Hlen. simpl in Hlen. lia.
+Qed.
+Corollary enough_finite_no_nan_elite_losses ne ls j :
+  (ne <= length (below_inf (map clean ls)))%nat -> In j (elites ne (map clean ls)) -> nth j ls NaN <> NaN.
+Proof.
+  intros Hc Hj E. pose proof (enough_finite_no_nan_elite ne _ j Hc Hj) as H.
+  change PInf with (clean NaN) in H at 1. rewrite map_nth, E in H. discriminate.
+Qed.
+(* the literal reading "a NaN candidate is never an elite while a finite-loss candidate exists" cannot hold for a fixed elite
+   count: with 2 elites, one finite loss and one NaN, the NaN candidate is an elite *)
+Lemma nan_elite_literal_refuted : exists ne ls j k, In j (elites ne (map clean ls)) /\ nth j ls NaN = NaN /\
+  (k < length ls)%nat /\ finite (clean (nth k ls NaN)) = true.
+Proof. exists 2%nat, [Num (Val 1); NaN], 1%nat, 0%nat. vm_compute. repeat split; auto. Qed.
+
+(* ------------------------------------------------------------------ stability: ties go to the lower index *)
+Definition plt (p q : nat * ext) : Prop := ltb (snd p) (snd q) = true \/ (snd p = snd q /\ (fst p < fst q)%nat).
+Lemma leb_cases a b : leb a b = true -> ltb a b = true \/ a = b. Proof. solve_ord; auto; right; f_equal; lia. Qed.
+Lemma ltb_leb_trans a b c : ltb a b = true -> leb b c = true -> ltb a c = true. Proof. solve_ord. Qed.
+Lemma leb_ltb_trans a b c : leb a b = true -> ltb b c = true -> ltb a c = true. Proof. solve_ord. Qed.
+Lemma plt_leb p q : plt p q -> leb (snd p) (snd q) = true.
+Proof. intros [H|[H _]]; [|rewrite H; apply leb_refl]. revert H. generalize (snd p) (snd q). intros a b H. solve_ord. Qed.
+Lemma ins_sorted_lex x l : StronglySorted plt l -> (forall q, In q l -> (fst x < fst q)%nat) -> StronglySorted plt (ins x l).
+Proof.
+  induction 1 as [|y l Hs IH Hall]; intros Hidx; simpl; [repeat constructor|].
+  destruct (leb (snd x) (snd y)) eqn:E.
+  - constructor; [now constructor|]. rewrite Forall_forall in Hall. apply Forall_forall. intros q [<-|Hq].
+    + destruct (leb_cases _ _ E) as [H|H]; [now left | right; split; [exact H | apply Hidx; now left]].
+    + pose proof (plt_leb _ _ (Hall q Hq)) as Hyq. destruct (leb_cases _ _ E) as [H|H].
+      * left. eapply ltb_leb_trans; eauto.
+      * destruct (leb_cases _ _ Hyq) as [H'|H']; [left; now rewrite H | right; split; [congruence | apply Hidx; now right]].
+  - constructor; [apply IH; intros q Hq; apply Hidx; now right|].
+    eapply Permutation_Forall; [symmetry; apply ins_perm|]. constructor; [|exact Hall].
+    left. revert E. generalize (snd x) (snd y). intros a b E. solve_ord.
+Qed.
+Lemma sort_index_lex (l : list ext) : forall s, StronglySorted plt (sort_pairs (combine (seq s (length l)) l)).
+Proof.
+  induction l as [|x l IH]; intros s; simpl; [constructor|]. apply ins_sorted_lex; [apply IH|].
+  intros [i e] Hq. apply (Permutation_in _ (sort_perm _)) in Hq. apply in_index_gen in Hq. simpl. lia.
+Qed.
+(* the sorted (index, loss) pairs are strictly increasing in (loss, index): argsort is the stable sort *)
+Theorem argsort_stable cl : StronglySorted plt (sort_pairs (index cl)).
+Proof. apply sort_index_lex. Qed.
